@@ -442,8 +442,18 @@ class NumpyBackend(BackendBase[NumericArray]):
             """Special sympy printer returning numpy arrays."""
 
             def _print_ImmutableDenseNDimArray(self, arr):
-                arrays = ", ".join(f"asarray({self._print(expr)})" for expr in arr)
-                return f"array(broadcast_arrays({arrays}))"
+                # all elements need to be broadcasted at once, since broadcasting row by
+                # row would align rows without variables along the wrong axis
+                elements = arr.reshape(len(arr))
+                arrays = ", ".join(f"asarray({self._print(expr)})" for expr in elements)
+                return f"_tensor_from_elements({arr.shape}, {arrays})"
+
+        def _tensor_from_elements(shape, *elements):
+            """Combine broadcasted elements to a tensor of given shape."""
+            data = np.array(np.broadcast_arrays(*elements))
+            return data.reshape(shape + data.shape[1:])
+
+        user_functions["_tensor_from_elements"] = _tensor_from_elements
 
         printer = NumpyArrayPrinter(
             {
